@@ -33,10 +33,12 @@ pub fn run() {
     let plan: Arc<Mutex<Vec<bool>>> = Arc::new(Mutex::new(Vec::new()));
     let attempt = Arc::new(AtomicUsize::new(0));
     let injected = Arc::new(AtomicUsize::new(0));
+    let hard_at = Arc::new(AtomicUsize::new(0));
     {
         let plan = plan.clone();
         let attempt = attempt.clone();
         let injected = injected.clone();
+        let hard_at = hard_at.clone();
         verif::set_fault_hook(Some(Box::new(move |_site, _fields| {
             if verif::actor() != SENDER_ACTOR {
                 return None;
@@ -45,7 +47,12 @@ pub fn run() {
             let p = plan.lock().unwrap();
             if i < p.len() && p[i] {
                 injected.fetch_add(1, Ordering::SeqCst);
-                Some(libc::ENOBUFS)
+                // attempt number `hard` fails with an error the code does not retry
+                if hard_at.load(Ordering::SeqCst) == i + 1 {
+                    Some(libc::EINTR)
+                } else {
+                    Some(libc::ENOBUFS)
+                }
             } else {
                 None
             }
@@ -53,6 +60,7 @@ pub fn run() {
     }
     for case in read_json_lines() {
         injected.store(0, Ordering::SeqCst);
+        hard_at.store(geti(&case, "hard").max(0) as usize, Ordering::SeqCst);
         let r = run_case(&case, &plan, &attempt, &injected);
         out_line(&r);
     }
